@@ -65,6 +65,13 @@ pub mod server;
 pub mod status;
 pub mod testkit;
 
+// Verification accessor module: compiled only with the `verif-hooks` feature. Its source
+// lives outside this repository so that it can reach crate-private items without widening
+// the public API.
+#[cfg(feature = "verif-hooks")]
+#[path = "/verif/inlib/kanidmd_lib.rs"]
+pub mod verif;
+
 /// A prelude of imports that should be imported by all other Kanidm modules to
 /// help make imports cleaner.
 // Clippy is wrong, these are used. Hush little clippy.
